@@ -58,7 +58,7 @@ def mismatches(ctx, cases, variant, tag):
     m = re.search(r"M\s*=\s*(.*?)\n\s*:", out, re.S)
     if not m:
         return None
-    return [(cases[int(a)], int(b)) for a, b in re.findall(r"\((\d+),\s*(\d+)\)", m.group(1))]
+    return [(cases[int(a)], int(b)) for a, b in re.findall(r"\(\s*(\d+)(?:%nat)?\s*,\s*(\d+)(?:%nat)?\s*\)", m.group(1))]
 
 
 def run(pid, tier, seed, replay):
